@@ -120,9 +120,34 @@ pub fn build(desc: &ImageDesc, bs: usize) -> (Vec<u8>, Truth) {
         let z = miniz_oxide::deflate::compress_to_vec(&raw, 6);
         comp_payloads.push((c.g, z));
     }
-    let comp_bytes: usize = comp_payloads.iter().map(|p| p.1.len()).sum::<usize>()
-        + if comp_payloads.is_empty() { 0 } else { desc.comp_start };
-    let comp_clusters = comp_bytes.div_ceil(cs);
+    // relative placement of the payloads inside the compressed area: back to
+    // back, but a host cluster never gets more references than the refcount
+    // width can hold
+    let rc_max: u64 = if desc.ro >= 6 { u64::MAX } else { (1u64 << (1u32 << desc.ro)) - 1 };
+    let mut comp_rel: Vec<usize> = Vec::new();
+    let mut area_refs: Vec<u64> = Vec::new();
+    let mut pos = if comp_payloads.is_empty() { 0 } else { desc.comp_start };
+    for (_, z) in comp_payloads.iter() {
+        loop {
+            let ns = ((pos & 511) + z.len() - 1) / 512;
+            let first = pos / cs;
+            let last = ((pos & !511) + (ns + 1) * 512 - 1) / cs;
+            while area_refs.len() <= last {
+                area_refs.push(0);
+            }
+            if (first..=last).all(|h| area_refs[h] < rc_max) {
+                for h in first..=last {
+                    area_refs[h] += 1;
+                }
+                break;
+            }
+            // start of the next cluster
+            pos = (pos / cs + 1) * cs;
+        }
+        comp_rel.push(pos);
+        pos += z.len();
+    }
+    let comp_clusters = area_refs.len();
 
     let n_data = desc
         .clusters
@@ -130,30 +155,6 @@ pub fn build(desc: &ImageDesc, bs: usize) -> (Vec<u8>, Truth) {
         .filter(|c| c.kind == "data" || c.kind == "zero_prealloc")
         .filter(|c| c.g / l2n < l1_hdr)
         .count();
-
-    // count host clusters: header + l1 + l2s + data + comp + leaks + reftable + refblocks
-    let fixed = 1 + l1_clusters + l2_needed.len() + n_data + comp_clusters + desc.leaks;
-    // iterate to a fixpoint for refblocks / reftable
-    let mut rt_clusters = desc.rt_clusters.unwrap_or(1);
-    let mut n_rb;
-    loop {
-        let mut total = fixed + rt_clusters;
-        n_rb = 1;
-        loop {
-            let t = (total + n_rb + desc.holes * 4).div_ceil(rbn);
-            if t <= n_rb {
-                break;
-            }
-            n_rb = t;
-        }
-        total += n_rb;
-        let _ = total;
-        let need_rt = (n_rb * 8).div_ceil(cs);
-        if need_rt <= rt_clusters {
-            break;
-        }
-        rt_clusters = need_rt;
-    }
 
     // host placement order
     #[derive(Clone, Debug, PartialEq)]
@@ -166,44 +167,62 @@ pub fn build(desc: &ImageDesc, bs: usize) -> (Vec<u8>, Truth) {
         Comp(usize),
         Leak(usize),
     }
-    // contiguous groups must stay contiguous: reftable, l1, comp area
-    let mut groups: Vec<Vec<Item>> = Vec::new();
-    groups.push((0..rt_clusters).map(Item::Rt).collect());
-    for i in 0..n_rb {
-        groups.push(vec![Item::Rb(i)]);
-    }
-    groups.push((0..l1_clusters).map(Item::L1).collect());
-    for i in &l2_needed {
-        groups.push(vec![Item::L2(*i)]);
-    }
-    for c in desc
-        .clusters
-        .iter()
-        .filter(|c| (c.kind == "data" || c.kind == "zero_prealloc") && c.g / l2n < l1_hdr)
-    {
-        groups.push(vec![Item::Data(c.g)]);
-    }
-    if comp_clusters > 0 {
-        groups.push((0..comp_clusters).map(Item::Comp).collect());
-    }
-    for i in 0..desc.leaks {
-        groups.push(vec![Item::Leak(i)]);
-    }
-    let mut rng = StdRng::seed_from_u64(desc.shuffle);
-    if desc.shuffle != 0 {
-        groups.shuffle(&mut rng);
-    }
-    let mut place: Vec<(Item, usize)> = Vec::new();
-    let mut next = 1usize;
-    for grp in groups {
-        if desc.holes > 0 && desc.shuffle != 0 && rng.gen_bool(0.4) {
-            next += rng.gen_range(1..=desc.holes);
+    let place_all = |n_rb: usize, rt_clusters: usize| -> (Vec<(Item, usize)>, usize) {
+        // contiguous groups must stay contiguous: reftable, l1, comp area
+        let mut groups: Vec<Vec<Item>> = Vec::new();
+        groups.push((0..rt_clusters).map(Item::Rt).collect());
+        for i in 0..n_rb {
+            groups.push(vec![Item::Rb(i)]);
         }
-        for it in grp {
-            place.push((it, next));
-            next += 1;
+        groups.push((0..l1_clusters).map(Item::L1).collect());
+        for i in &l2_needed {
+            groups.push(vec![Item::L2(*i)]);
         }
-    }
+        for c in desc
+            .clusters
+            .iter()
+            .filter(|c| (c.kind == "data" || c.kind == "zero_prealloc") && c.g / l2n < l1_hdr)
+        {
+            groups.push(vec![Item::Data(c.g)]);
+        }
+        if comp_clusters > 0 {
+            groups.push((0..comp_clusters).map(Item::Comp).collect());
+        }
+        for i in 0..desc.leaks {
+            groups.push(vec![Item::Leak(i)]);
+        }
+        let mut rng = StdRng::seed_from_u64(desc.shuffle);
+        if desc.shuffle != 0 {
+            groups.shuffle(&mut rng);
+        }
+        let mut place: Vec<(Item, usize)> = Vec::new();
+        let mut next = 1usize;
+        for grp in groups {
+            if desc.holes > 0 && desc.shuffle != 0 && rng.gen_bool(0.4) {
+                next += rng.gen_range(1..=desc.holes);
+            }
+            for it in grp {
+                place.push((it, next));
+                next += 1;
+            }
+        }
+        (place, next)
+    };
+    let _ = n_data;
+    let mut rt_clusters = desc.rt_clusters.unwrap_or(1);
+    let mut n_rb = 1usize;
+    let (place, next) = loop {
+        let (pl, next) = place_all(n_rb, rt_clusters);
+        if next > n_rb * rbn {
+            n_rb += 1;
+            continue;
+        }
+        if (n_rb * 8).div_ceil(cs) > rt_clusters {
+            rt_clusters = (n_rb * 8).div_ceil(cs);
+            continue;
+        }
+        break (pl, next);
+    };
     let host_clusters = next;
     assert!(host_clusters <= n_rb * rbn, "builder: refblocks too few");
     let find = |it: &Item| -> usize { place.iter().find(|p| p.0 == *it).unwrap().1 };
@@ -240,11 +259,7 @@ pub fn build(desc: &ImageDesc, bs: usize) -> (Vec<u8>, Truth) {
         put64(&mut img, l1_c * cs + i * 8, (1u64 << 63) | (c * cs) as u64);
     }
     // compressed area
-    let mut comp_pos = if comp_clusters > 0 {
-        find(&Item::Comp(0)) * cs + desc.comp_start
-    } else {
-        0
-    };
+    let comp_base = if comp_clusters > 0 { find(&Item::Comp(0)) * cs } else { 0 };
     for c in &desc.clusters {
         let l1i = c.g / l2n;
         if l1i >= l1_hdr {
@@ -274,10 +289,11 @@ pub fn build(desc: &ImageDesc, bs: usize) -> (Vec<u8>, Truth) {
                 truth.kinds[c.g] = "zp".into();
             }
             "comp" => {
-                let z = &comp_payloads.iter().find(|p| p.0 == c.g).unwrap().1;
+                let pi = comp_payloads.iter().position(|p| p.0 == c.g).unwrap();
+                let z = &comp_payloads[pi].1;
+                let comp_pos = comp_base + comp_rel[pi];
                 let off = comp_pos as u64;
                 img[comp_pos..comp_pos + z.len()].copy_from_slice(z);
-                comp_pos += z.len();
                 let ns = ((off & 511) + z.len() as u64 - 1) / 512;
                 let x = 62 - (desc.cb - 8);
                 put64(&mut img, eoff, (1u64 << 62) | (ns << x) | off);
@@ -285,9 +301,10 @@ pub fn build(desc: &ImageDesc, bs: usize) -> (Vec<u8>, Truth) {
                 let first = off as usize / cs;
                 // the reader may fetch up to (ns+1) sectors
                 let last = ((off & !511) + (ns + 1) * 512 - 1) as usize / cs;
-                let last = last.min(host_clusters - 1);
+                assert!(last < host_clusters);
                 for h in first..=last {
                     rc[h] += 1;
+                    assert!(rc[h] <= rc_max, "builder: refcount overflow");
                 }
                 truth.kinds[c.g] = "c".into();
                 truth.wids[c.g] = c.wid;
